@@ -102,7 +102,8 @@ func isTypeExpr(rs *Resid, e ast.Expr) bool {
 		if h := rs.hole(x.Name); h != nil {
 			return h.Kind == "TYPE"
 		}
-		return universe[x.Name] && x.Name != "nil" && x.Name != "true" && x.Name != "false" && x.Name != "len" && x.Name != "cap"
+		_, isType := types.Universe.Lookup(x.Name).(*types.TypeName) // not the builtin functions (real, imag, len, …) or constants
+		return universe[x.Name] && isType
 	case *ast.StarExpr:
 		return isTypeExpr(rs, x.X)
 	case *ast.ArrayType, *ast.MapType, *ast.ChanType, *ast.FuncType, *ast.StructType, *ast.InterfaceType:
